@@ -96,3 +96,53 @@ example : Consistent [0x61, 0x0A, 0xC3, 0xA9]
     (fun b hb => by simp at hb; subst hb; exact ⟨by constructor <;> decide, by decide⟩)
 
 end Tera.C12
+
+namespace Tera.C12
+open Tera Utf8 Lexer WsFilter Report
+
+/-- the pad consists of tabs and spaces only, one per char taken -/
+theorem underlinePad_spec : ∀ (n : Nat) (line : Bytes),
+    (∀ b ∈ underlinePad n line, b = 0x09 ∨ b = 0x20) ∧
+    (underlinePad n line).length = min n (charCount line) := by
+  intro n line
+  induction line generalizing n with
+  | nil => cases n <;> simp [underlinePad, charCount]
+  | cons b t ih =>
+    cases n with
+    | zero => simp [underlinePad]
+    | succ n =>
+      unfold underlinePad
+      by_cases hb : isCont b = true
+      · simp only [hb, if_true]
+        refine ⟨(ih (n + 1)).1, ?_⟩
+        rw [(ih (n + 1)).2]; simp [charCount, hb]
+      · simp only [hb, Bool.false_eq_true, if_false]
+        refine ⟨?_, ?_⟩
+        · intro x hx
+          rcases List.mem_cons.mp hx with h | h
+          · subst h; by_cases h9 : b = 0x09 <;> simp [h9]
+          · exact (ih n).1 x h
+        · rw [List.length_cons, (ih n).2]
+          simp [charCount, hb]
+
+/-- **report_underline_shape.**  Whenever the display code returns, the underline it prints is a
+pad of tabs / spaces — one per character of the quoted line up to the span's start column, never
+more than `start_col` of them — followed by exactly `max 1 (end_col - start_col)` carets: the
+caret run starts under the character the span starts on and is never empty. -/
+theorem report_underline_shape {src : Bytes} {sp : Span} {line ul : Bytes}
+    (h : sourceLocation src sp = .ok (line, ul)) :
+    ∃ pad, ul = pad ++ List.replicate (if sp.endCol > sp.startCol then sp.endCol - sp.startCol else 1) 0x5E ∧
+      (∀ b ∈ pad, b = 0x09 ∨ b = 0x20) ∧ pad.length = min sp.startCol (charCount line) := by
+  unfold sourceLocation at h
+  simp only at h
+  split at h
+  · cases h
+  · split at h
+    · cases h
+    · rename_i l hl
+      simp only [Res.ok.injEq, Prod.mk.injEq] at h
+      obtain ⟨h1, h2⟩ := h
+      subst h1
+      exact ⟨_, h2.symm, (underlinePad_spec _ _).1, (underlinePad_spec _ _).2⟩
+
+end Tera.C12
